@@ -108,9 +108,14 @@ class rule(Tactic):
         if set(term.get_svars(th.assums)) != set(th.prop.get_svars()) or \
            set(term.get_stvars(th.assums)) != set(th.prop.get_stvars()) or \
            not matcher.is_pattern_list(th.assums, []):
-            return apply_theorem(th_name, *pts, inst=inst)
+            pt = apply_theorem(th_name, *pts, inst=inst)
         else:
-            return apply_theorem(th_name, *pts)
+            pt = apply_theorem(th_name, *pts)
+
+        # Matching works up to eta-conversion, while a proof line must state
+        # exactly what its rule yields.
+        assert pt.prop == goal.prop, "rule: the instance of the theorem differs from the goal"
+        return pt
 
 class resolve(Tactic):
     """Given any goal, a theorem of the form ~A, and an existing fact A,
